@@ -24,7 +24,8 @@ func init() {
 		Explanation: "Decides writer/reader agreement of the index entry layout, not interoperability on real files: (index-entry-layout) the fixed-width fields read by Decoder.readEntry are, in order, the fields written by Encoder.encodeEntry " +
 			"(ctime s/ns, mtime s/ns, dev, ino, mode, uid, gid, size), followed by object id and flags on both sides; the shared constants have git's values (entry header 42 = 40+2 bytes, extended flag 0x4000, name mask 0xfff, intent-to-add 1<<13, " +
 			"skip-worktree 1<<14) and both sides use the same constant objects; both padEntry functions skip padding for version 4 and pad to a multiple of 8; the decoder knows the TREE, REUC and EOIE extensions and treats unknown extensions " +
-			"whose first byte is A..Z as optional. Not decided: agreement with git on generated indexes; extension contents; V4 prefix compression arithmetic (seed C12a is not detected).",
+			"whose first byte is A..Z as optional; (entries-sorted-before-write) the encoder passes a sort on every path before it writes the first entry, and the ordering used compares Name and Stage; (bytewise-string-loops) no decoder/encoder loop ranges over " +
+			"the runes of a string while indexing it by bytes. Not decided: agreement with git on generated indexes; extension contents; V4 prefix compression arithmetic.",
 		Assumptions: []string{},
 		Run:         runC12,
 	})
@@ -192,6 +193,47 @@ func runC34(c *Ctx) {
 func runC12(c *Ctx) {
 	p := c.P
 	PackagesStateFree(c, "codec-state-free", "plumbing/format/index")
+	// entries-sorted-before-write: git requires index entries ordered by path, then stage; the encoder sorts on every
+	// path before the first entry is written (a sort that is skipped under some "already sorted" test decides the order
+	// with that test's comparison, which need not be the order git requires)
+	if ee := c.MustFunc("entries-sorted-before-write", idxShort+".(*Encoder).encodeEntries"); ee != nil {
+		c.Analysed(ee)
+		einfo := ee.Pkg.TypesInfo
+		f := p.FlowOf(ee)
+		sorts := func(n ast.Node) bool {
+			if _, isDefer := n.(*ast.DeferStmt); isDefer {
+				return false
+			}
+			return nodeHasCall(n, false, func(call *ast.CallExpr) bool {
+				fn := Callee(einfo, call)
+				if fn == nil || fn.Pkg() == nil {
+					return false
+				}
+				switch fn.Pkg().Path() + "." + fn.Name() {
+				case "sort.Sort", "sort.Stable", "sort.Slice", "sort.SliceStable", "slices.SortFunc", "slices.SortStableFunc":
+					return true
+				}
+				return false
+			}) != nil
+		}
+		writes := func(n ast.Node) bool {
+			return nodeHasCall(n, false, func(call *ast.CallExpr) bool {
+				fn := Callee(einfo, call)
+				return fn != nil && fn.Name() == "encodeEntry"
+			}) != nil
+		}
+		h := f.Search(SearchOpts{Starts: []Loc{f.Entry()}, Sink: writes, Barrier: sorts})
+		c.Check(h == nil && len(f.Locs(writes)) > 0 && len(f.Locs(sorts)) > 0, "entries-sorted-before-write", ee.Name(), ee.Decl.Pos(), orStr(ifStr(h != nil, "an entry can be written on a path that did not sort the entries: the on-disk order is then whatever the caller built"+hitLines(f, h)),
+			"the entries are sorted on every path before the first one is written"))
+		// the sort orders by name and stage
+		less := p.Func(idxShort + ".byNameAndStage.Less")
+		if less != nil {
+			et := p.lookupType(idxShort, "Entry")
+			nameF, stageF := fieldOf(et, "Name"), fieldOf(et, "Stage")
+			c.Check(mentionsFieldObj(einfo, less.Decl.Body, nameF) && mentionsFieldObj(einfo, less.Decl.Body, stageF), "entries-sorted-before-write", less.Name(), less.Decl.Pos(), "the ordering compares Name and Stage")
+		}
+	}
+	c.Floor("entries-sorted-before-write", 1)
 	const r1 = "index-entry-layout"
 	for _, k := range []struct{ name, want string }{{"entryHeaderLength", "42"}, {"entryExtended", "16384"}, {"nameMask", "4095"}, {"intentToAddMask", "8192"}, {"skipWorkTreeMask", "16384"}} {
 		v, pos := constVal(p, idxShort, k.name)
